@@ -122,7 +122,16 @@ class Shards:
     def count(self): return sum(len(i) for i in self.index) + len(self.ids)
 
 
-def correspondence(run, tasks, results, thorough):
+def spec_row(i, r, failed):
+    """observation of one run in the integer codes of Spec/RobustSpec.v: (id, reader code, downstream codes, harness verdict)"""
+    if r["outcome"] == "doc": rc = 0
+    elif r["outcome"] == "none": rc = -1
+    else: rc = S_CODE.get(r["outcome"].split(":", 1)[1], 12)
+    down = [S_CODE.get(f["type"], 12) for f in r["fails"]] or [0]
+    return (i, rc, tuple(down), 0 if failed else 1)
+
+
+def correspondence(run, tasks, results, spec_rows, thorough):
     import logging
     logging.disable(logging.CRITICAL)
     rng = random.Random(run.seed + 18)
@@ -146,7 +155,6 @@ def correspondence(run, tasks, results, thorough):
     skipped = collections.Counter(); used = collections.Counter()
     seen_cur = set(); seen_lines = {"srt": set(), "vtt": set(), "scc": set()}
     spec_expect_bad = set()
-
     import ttconv.srt.reader as sr, ttconv.vtt.reader as vr
     from ttconv.scc.line import SccLine
     from ttconv.scc.word import SccWord
@@ -165,21 +173,16 @@ def correspondence(run, tasks, results, thorough):
                 except OverflowError: ovf = 1
         return [int(bool(vr._EMPTY_RE.fullmatch(line))), int(line.startswith("NOTE ")), int(line.startswith("STYLE")), int("-->" in line), int(cue), ovf]
 
+    # ---- S on the observed runs: every failing run; all passing ones in the quick tier, a 10 % sample in the thorough tier
+    for (i, rc, down, ok) in spec_rows:
+        if ok == 0 or not thorough or rng.random() < 0.1:
+            sh["spec"].add(f"({C.z(rc)}, {zl(down)}, {ok})", i)
+            if ok == 0: spec_expect_bad.add(i)
     order = list(tasks); rng.shuffle(order)
     for t in order:
         r = results.get(t["i"])
         if r is None: continue
         fmt = t["fmt"]
-        # ---- S on every run (bounded in the thorough tier: every failing run + a sample of the passing ones)
-        fl = R.failures(r)
-        if fl or not thorough or rng.random() < 0.15:
-            if r["outcome"] == "doc": rc = 0
-            elif r["outcome"] == "none": rc = -1
-            else: rc = S_CODE.get(r["outcome"].split(":", 1)[1], 12)
-            down = [S_CODE.get(f["type"], 12) for f in r["fails"]] or [0]
-            ok = 0 if fl else 1
-            sh["spec"].add(f"({C.z(rc)}, {zl(down)}, {ok})", t["i"])
-            if fl: spec_expect_bad.add(t["i"])
         if fmt == "imsc" or t["stream"] == "depth" or len(t["data"]) > 6000: continue
         code = outcome_code(r)
         if code is None: skipped[fmt + ":unmodelled-exception"] += 1; continue
